@@ -62,6 +62,15 @@ CLAIMED = {
         "set must equal the predicted set exactly (multiplicity >= 1 allowed).",
         "Root + 3 nodes; subjects of other behaviours sharing the instance are filtered by id prefix.",
         "6/C06"),
+    "C09": (
+        "TLA+ spec Auth.tla: gate table (Status401) and login eligibility / listing over placement histories checked by TLC; "
+        "the full request product and TLC-generated histories replayed against a real instance over HTTP and NATS",
+        "The gate is a finite table that is enumerated completely on the real HTTP API with forged, expired and "
+        "wrong-algorithm tokens; login and listing are state-dependent and are checked after every step of generated "
+        "placement histories.",
+        "2 users / 2 groups in the model; token classes are those listed; absence of effects is asserted behind a marker "
+        "message on the spy connection.",
+        "6/C09"),
     "C10": (
         "TLA+ spec Points.tla: Encode/Decode/Diff transcribed per field kind; TLC checks round-trip and diff/merge laws "
         "for all values and ordered pairs; every case replayed on the real data.Encode/Decode/DiffPoints/MergePoints",
